@@ -6,13 +6,7 @@ package gojq
 // behaviour of the package unless a harness sets one of the exported
 // variables. Without the tag, verif_nohooks.go provides inlinable no-ops.
 
-import (
-	"encoding/json"
-	"fmt"
-	"math"
-	"math/big"
-	"sort"
-)
+import "fmt"
 
 // ---------------------------------------------------------------------------
 // H2: optimisation switches. Bit k set = rewrite k disabled.
@@ -99,64 +93,19 @@ func (c *compiler) verifCompileUnarySlow(e *Unary) error {
 }
 
 // ---------------------------------------------------------------------------
-// value encoding shared by the dump functions (tagged JSON, see DESIGN 2.3)
-
-// VerifEncVal encodes a gojq value as the tagged JSON the specification reads.
-func VerifEncVal(v any) any {
-	switch v := v.(type) {
-	case nil:
-		return map[string]any{"t": "null"}
-	case bool:
-		return map[string]any{"t": "bool", "b": v}
-	case int:
-		if -1<<30 < v && v < 1<<30 {
-			return map[string]any{"t": "num", "n": v}
-		}
-		return map[string]any{"t": "big", "s": fmt.Sprint(v), "rep": "int"}
-	case float64:
-		if v == math.Trunc(v) && math.Abs(v) < 1<<30 {
-			return map[string]any{"t": "num", "n": int(v), "rep": "float"}
-		}
-		return map[string]any{"t": "float", "f": fmt.Sprint(v)}
-	case *big.Int:
-		return map[string]any{"t": "big", "s": v.String(), "rep": "big"}
-	case json.Number:
-		return map[string]any{"t": "jnum", "s": v.String()}
-	case string:
-		cs := []any{}
-		for _, r := range v {
-			cs = append(cs, int(r))
-		}
-		return map[string]any{"t": "str", "s": cs}
-	case []any:
-		xs := []any{}
-		for _, x := range v {
-			xs = append(xs, VerifEncVal(x))
-		}
-		return map[string]any{"t": "arr", "a": xs}
-	case map[string]any:
-		ks := make([]string, 0, len(v))
-		for k := range v {
-			ks = append(ks, k)
-		}
-		sort.Strings(ks)
-		xs := []any{}
-		for _, k := range ks {
-			xs = append(xs, []any{VerifEncVal(k).(map[string]any)["s"], VerifEncVal(v[k])})
-		}
-		return map[string]any{"t": "obj", "o": xs}
-	default:
-		return map[string]any{"t": "other", "x": fmt.Sprintf("%T", v)}
-	}
-}
-
-// ---------------------------------------------------------------------------
 // H1: bytecode dump
 
-// VerifInstr is one dumped instruction.
+// VerifInstr is one dumped instruction. Constant operands are the raw values
+// (HasVal); the harness encodes them.
 type VerifInstr struct {
-	Op string `json:"op"`
-	V  any    `json:"v,omitempty"`
+	Op     string
+	HasVal bool
+	Val    any
+	N      *int
+	Var    *[2]int
+	Scope  *[3]int
+	Native string
+	Argc   int
 }
 
 // VerifDump returns the bytecode of a compiled query.
@@ -167,23 +116,24 @@ func VerifDump(c *Code) []VerifInstr {
 		switch v := cd.v.(type) {
 		case nil:
 			if cd.op == oppush || cd.op == opconst {
-				in.V = map[string]any{"val": VerifEncVal(nil)}
+				in.HasVal = true
 			}
 		case int:
 			switch cd.op {
 			case oppush, opconst, opindex, opindexarray:
-				in.V = map[string]any{"val": VerifEncVal(v)}
+				in.HasVal, in.Val = true, v
 			default:
-				in.V = map[string]any{"n": v}
+				n := v
+				in.N = &n
 			}
 		case [2]int:
-			in.V = map[string]any{"id": v[0], "ix": v[1]}
+			in.Var = &v
 		case [3]int:
-			in.V = map[string]any{"id": v[0], "cnt": v[1], "argc": v[2]}
+			in.Scope = &v
 		case [3]any:
-			in.V = map[string]any{"native": v[2].(string), "argc": v[1].(int)}
+			in.Native, in.Argc = v[2].(string), v[1].(int)
 		default:
-			in.V = map[string]any{"val": VerifEncVal(v)}
+			in.HasVal, in.Val = true, v
 		}
 		out[i] = in
 	}
